@@ -16,7 +16,7 @@ FS_CALLS = {
     "open": "open", "io.open": "open", "gzip.open": "open", "bz2.open": "open", "lzma.open": "open", "codecs.open": "open",
     "os.makedirs": "create", "os.mkdir": "create", "os.remove": "delete", "os.unlink": "delete", "os.rename": "move", "os.replace": "move",
     "os.rmdir": "delete", "os.listdir": "probe", "os.scandir": "probe", "os.walk": "probe", "os.stat": "probe", "os.chmod": "modify",
-    "os.path.exists": "probe", "os.path.isfile": "probe", "os.path.isdir": "probe", "os.path.getsize": "probe",
+    "os.path.exists": "probe", "os.path.lexists": "probe", "os.path.isfile": "probe", "os.path.isdir": "probe", "os.path.getsize": "probe",
     "shutil.copy": "create", "shutil.copyfile": "create", "shutil.move": "move", "shutil.rmtree": "delete",
     "tempfile.mkstemp": "create", "tempfile.NamedTemporaryFile": "create", "tempfile.mkdtemp": "create",
     "pathlib.Path": "path-object", "os.system": "exec", "subprocess.run": "exec", "subprocess.Popen": "exec", "subprocess.call": "exec", "os.popen": "exec",
@@ -37,6 +37,7 @@ ALLOWED: Dict[Tuple[str, str], str] = {
     ("pdfminer.image.ImageWriter._save_bytes", "open"): "image export (confined by R2/R3)",
     ("pdfminer.image.ImageWriter._save_raw", "open"): "image export (confined by R2/R3)",
     ("pdfminer.image.ImageWriter._create_unique_image_name", "os.path.exists"): "existence probe of the candidate export name",
+    ("pdfminer.image.ImageWriter._create_unique_image_name", "os.path.lexists"): "existence probe of the candidate export name",
     ("pdfminer.ccitt.main", "open"): "developer entry point (python -m pdfminer.ccitt), not reachable from extraction",
     ("pdfminer.fontmetrics.convert_font_metrics", "open"): "developer converter of AFM files, not reachable from extraction",
     ("pdfminer.glyphlist.convert_glyphlist", "open"): "developer converter of the glyph list, not reachable from extraction",
@@ -283,12 +284,18 @@ def unique_name_rule(model: Model, rep: Report, rid: str) -> None:
     r3 = rep.rule(rid, "ORDER", "no overwrite: every write-mode open uses the name produced by the unique-name loop", 7)
     un = model.func("pdfminer.image.ImageWriter._create_unique_image_name")
     loops = [n for n in walk_no_nested(un.node) if isinstance(n, ast.While)]
-    okl = len(loops) == 1 and unparse(loops[0].test).replace(" ", "") == "os.path.exists(path)"
+    probe = unparse(loops[0].test).replace(" ", "") if len(loops) == 1 else ""
+    okl = probe in ("os.path.exists(path)", "os.path.lexists(path)")
     rets = [n for n in walk_no_nested(un.node) if isinstance(n, ast.Return)]
     okr = bool(rets) and unparse(rets[-1].value).replace(" ", "") in ("(name,path)", "name,path") and (not loops or rets[-1].lineno > (loops[0].end_lineno or 0))
     # path is rebuilt from name inside the loop
     okb = bool(loops) and any(isinstance(s, ast.Assign) and unparse(s.targets[0]) == "path" for s in loops[0].body) and any(isinstance(s, ast.AugAssign) and isinstance(s.op, ast.Add) for s in loops[0].body)
     r3.check(okl and okr and okb, site(un), un.qualname, "candidate names are tried until os.path.exists(path) is false; the returned path is the tested one", why=f"loop={okl} return={okr} rebuild={okb}")
+    # a name taken by a symbolic link is taken, whatever the link points at: open(path, "wb") follows a dangling link and
+    # creates its target - a file outside the output directory.  os.path.exists() answers False for a dangling link.
+    probes = [c for lp in loops for c in ast.walk(lp.test) if isinstance(c, ast.Call) and (dotted(c.func) or "") in ("os.path.exists", "os.path.lexists")]
+    for c in probes:
+        r3.check((dotted(c.func) or "") == "os.path.lexists", site(un, c), un.qualname, f"{unparse(c)} : the existence probe of a candidate name does not follow symbolic links", why="a dangling symbolic link in the output directory counts as a free name; open(path, 'wb') then creates the link's target outside the output directory")
     # path-sensitive form: on every path into a return, the last event on the returned path variable is the false edge of the
     # existence test - no assignment to it (or to the name it is built from) lies between the test and the return
     g = build_cfg(un.node, exc_edges=False)
